@@ -788,8 +788,9 @@ fn one_cap(
     }
     let script = script_with(c);
     let r = run_entry(c, bytes, &opts, &script);
-    // (UTF-16 input is charged by its raw bytes, mark included: exact, except for a mark-only input)
-    let has_bom = bytes.starts_with(&[0xEF, 0xBB, 0xBF]) || (utf16_kind(bytes).is_some() && l <= 2);
+    // (the cap counts raw bytes, byte-order mark included - UTF-8 and UTF-16 alike; only an input that
+    // consists of nothing but the mark is left out: no character arrives that could be charged)
+    let has_bom = (bytes.starts_with(&[0xEF, 0xBB, 0xBF]) && l <= 3) || (utf16_kind(bytes).is_some() && l <= 2);
     if utf16_kind(bytes).is_some() {
         st.bump("utf16.caps");
     }
